@@ -401,7 +401,7 @@ def su_ghost_init(ip, frame, env):
     sweep_ghost_init(ip, frame, env)
 
 
-@contract('connection.ServerClientConnection.update', props=['C07', 'C05', 'C12'])
+@contract('connection.ServerClientConnection.update', props=['C07', 'C05', 'C12', 'C03'])
 class _:
     def setup(E):
         self = sweep_setup(E)
@@ -422,4 +422,8 @@ class _:
         'expired-datagrams-time-out-others-stay-open': lambda old, self, ghost, s: S.bool(z3.Implies(
             Base(old, ghost).has(S.term(s)), _handled_su(old, self, ghost, s, never(old, s, ghost), su_timed_out(old, s, ghost))))
         if ghost.base_dom is not None else True,
+        # C03: what the server loop is handed to send is (the packet just built, THIS connection's session key, THIS connection's
+        # address) - or nothing
+        'hands-over-its-own-key-and-address-with-the-packet': lambda self, result: True if result is None else (
+            isinstance(result, tuple) and len(result) == 3 and result[1] is self.session_key_bytes and result[2] is self.addr),
     }
